@@ -13,10 +13,11 @@ META = {
     ],
     'bounds': {
         'quick': 'the template / input / result vectors harvested (by ast, on every run) from the repository\'s own '
-                 'test_transformer.py plus 15 synthetic templates (halide -> alcohol, deletion with detached fragments, masked '
+                 'test_transformer.py plus 20 synthetic templates (halide -> alcohol, deletion with detached fragments, masked '
                  'atoms, new atoms, charge change, identity, untouched ring / chain stereo), each applied to every random-order spelling of the input '
-                 '(random() symbolic)',
-        'thorough': 'more inputs per template, two-reactant Reactor templates',
+                 '(random() symbolic); two two-reactant Reactor templates on three molecules in every order with colliding / '
+                 'disjoint numberings (solver-chosen)',
+        'thorough': 'as quick',
     },
     'outside_claim': ['the built-in reaction and deprotection collections', 'exhaustive / one-shot modes of Reactor beyond the '
                       'listed templates'],
@@ -58,6 +59,12 @@ SYNTH = [
     # the deleted atom has two unmatched neighbours in one surviving fragment (1-azabicyclo[1.1.1]pentane loses its N)
     ('[C:1][N:2]', '[A:1]', 'C1N2CC1C2', None),
     ('[C:1][O:2]', '[A:1]', 'C1OC2CC1C2', None),
+    # cis/trans label requested by the replacement, whatever the input carries
+    ('[F:3][C:1]=[C:2][Cl:4]', '[A:3]/[A:1]=[A:2]/[A:4]', 'FC=CCl', ['F/C=C/Cl']),
+    ('[F:3][C:1]=[C:2][Cl:4]', '[A:3]/[A:1]=[A:2]/[A:4]', 'F/C=C\\Cl', ['F/C=C/Cl']),
+    ('[F:3][C:1]=[C:2][Cl:4]', '[A:3]/[A:1]=[A:2]\\[A:4]', 'F/C=C/Cl', ['F/C=C\\Cl']),
+    ('[F:3][C:1]=[C:2][Cl:4]', '[A:3]/[A:1]=[A:2]\\[A:4]', 'FC=CCl', ['F/C=C\\Cl']),
+    ('[F:3][C:1]=[C:2][Cl:4]', '[A:3][A:1]=[A:2][A:4]', 'F/C=C/Cl', ['F/C=C/Cl']),      # no label asked: the input's stays
 ]
 
 
@@ -149,12 +156,67 @@ def h_template(V, k, synth=False, falsify=False):
     V.observe('text', text)
 
 
-HARNESSES = {'template': h_template}
+REACTOR = [
+    # (reactant patterns, product patterns, molecules)
+    (('[C:1](=[O:2])[O;D1:3]', '[N;D1:4][C:5]'), ('[A:1](=[A:2])[A:4][A:5]',), ('CC(=O)O', 'CN', 'NCC')),
+    (('[C:1][Cl:2]', '[O;D1:3][C:4]'), ('[A:1][A:3][A:4]',), ('CCl', 'OCC', 'OC(C)C')),
+]
+
+
+def h_reactor(V, k, falsify=False):
+    """two-reactant template on three molecules given in a solver-chosen order with solver-chosen (colliding or disjoint)
+    numbering: the product set is that of the hand-disjoint reference"""
+    import chython
+    from chython import Reactor
+    from chython.reactor.reactor import fix_mapping_overlap
+    reset_masked()
+    pats, prods, mols = REACTOR[k]
+    reactor = Reactor([chython.smarts(x) for x in pats], [chython.smarts(x) for x in prods])
+
+    def product_set(structures):
+        out = set()
+        for r in reactor(*structures):
+            ps = []
+            for p in r.products:
+                V.prove(len(set(p._atoms)) == len(p), 'product atom numbers are unique')
+                V.prove(all(x in p._atoms for n in p._atoms for x in p._bonds[n]), 'no bond points to a missing atom')
+                ps.append(format(p, 'h'))
+            out.add(tuple(sorted(ps)))
+        return out
+    ref_mols = [chython.smiles(x) for x in mols]
+    for i, m in enumerate(ref_mols):
+        m.remap({n: 100 * (i + 1) + n for n in list(m._atoms)})
+    reference = product_set(ref_mols)
+    if falsify:
+        reference = set(list(reference)[1:])
+    perm = [V.int(f'pos{i}', 0, 2) for i in range(3)]
+    V.distinct(*perm)
+    perm = [int(x) for x in perm]
+    starts = [V.choice(f'start{i}', [0, 10, 20]) for i in range(3)]
+    given = []
+    for i in perm:
+        m = chython.smiles(mols[i])
+        if starts[i]:
+            m.remap({n: n + 1000 for n in list(m._atoms)})
+            m.remap({n: n - 1000 + starts[i] for n in list(m._atoms)})
+        given.append(m)
+    info = {'template': pats, 'order': perm, 'starts': starts}
+    fixed = fix_mapping_overlap([m.copy() for m in given])
+    nums = [n for m in fixed for n in m._atoms]
+    V.prove(len(nums) == len(set(nums)), 'colliding reactant numbers are made disjoint', dict(info, got=[list(m._atoms) for m in fixed]))
+    got = product_set(given)
+    V.prove(got == reference, 'product set does not depend on reactant order or numbering', dict(info, got=sorted(got),
+            want=sorted(reference)))
+    V.observe('n', len(got))
+
+
+HARNESSES = {'template': h_template, 'reactor': h_reactor}
 
 
 def finding_key(job, failure):
     p = job['params']
-    return f"{job['harness']}:{failure['label']}:{'synth' if p.get('synth') else 'harvested'}:{p.get('k')}"
+    kind = 'reactor' if job['harness'] == 'reactor' else 'synth' if p.get('synth') else 'harvested'
+    return f"{job['harness']}:{failure['label']}:{kind}:{p.get('k')}"
 
 
 def jobs(tier):
@@ -166,4 +228,7 @@ def jobs(tier):
                   'max_failures': 3})
     J.append({'harness': 'template', 'params': {'k': 0, 'synth': True, 'falsify': True}, 'twin': True, 'budget_s': 120,
               'max_failures': 1})
+    for k in range(len(REACTOR)):
+        J.append({'harness': 'reactor', 'params': {'k': k}, 'budget_s': 600, 'validate_every': 25, 'max_failures': 5})
+    J.append({'harness': 'reactor', 'params': {'k': 0, 'falsify': True}, 'twin': True, 'budget_s': 120, 'max_failures': 1})
     return J
